@@ -369,8 +369,9 @@ def maxReq (al : List Alloc) : Nat := al.foldl (fun m a => max m a.req) 0
 def sumReq (al : List Alloc) : Nat := al.foldl (fun m a => m + a.req) 0
 
 /-- measurement slack of the harness (runtime.MemStats.TotalAlloc delta): library bookkeeping, temp file,
-    reflection — generously 8 MiB + 256 × file length. -/
-def slack (n : Nat) : Nat := 8388608 + 256 * n
+    reflection — 1 MiB + 256 × file length (observed: < 80 × file length, plus ~0.7 KiB per entry of a trun
+    without per-sample fields, which the generator keeps below 200 entries). -/
+def slack (n : Nat) : Nat := 1048576 + 256 * n
 
 /-- is the measured allocation consistent with what the model says the code requests? -/
 def allocConsistent (n measured : Nat) (al : List Alloc) : Bool :=
